@@ -28,6 +28,7 @@ SPACES = {
     "quick": [
         dict(nv=3, maxl=2, classes=ALL6),
         dict(nv=2, maxl=3, minl=3, classes=("D", "U", "O")),
+        dict(nv=2, maxl=5, minl=4, classes=("D",)),          # many links on one vertex
     ],
     "thorough": [
         dict(nv=3, maxl=3, classes=("D", "U", "Ds", "O")),
@@ -109,10 +110,12 @@ def answers(w):
     return out
 
 
-def judge_unlink(spec, seq, a, b, base):
+def judge_unlink(spec, seq, a, b, base, caching=False):
     """(iii) on a fresh copy.  Returns list of (kind, key)."""
     w2, ok = engine_g.build(spec, seq, validate=False)
-    Vertex.NEIGHBOR_CACHING = False
+    Vertex.NEIGHBOR_CACHING = caching
+    if caching:
+        warm_all(w2)
     try:
         explicit.unlink(w2.v[a], w2.v[b])
     except Exception as e:  # noqa: BLE001
@@ -129,8 +132,30 @@ def judge_unlink(spec, seq, a, b, base):
     return bad
 
 
+def warm_all(w):
+    """with caching on: fill every vertex's memo for all direction / unknown-mode combinations"""
+    for v in w.v:
+        for d in (oracles.FWD, oracles.ANY, oracles.BWD):
+            for u in UNKS.values():
+                try:
+                    helpers.neighbors(v, d, u, None)
+                except NotImplementedError:
+                    pass
+
+
 def per_state(spec, seq, w):
+    ev, nt, viols = _per_state(spec, seq, w, False)
+    # the same evaluation with neighbour caching on and warm memos (find_links must not depend on it)
+    w2, _ = engine_g.build(spec, seq, validate=False)
+    ev2, nt2, viols2 = _per_state(spec, seq, w2, True)
     Vertex.NEIGHBOR_CACHING = False
+    return ev + ev2, nt + nt2, viols + viols2, None
+
+
+def _per_state(spec, seq, w, caching):
+    Vertex.NEIGHBOR_CACHING = caching
+    if caching:
+        warm_all(w)
     evals = nontriv = 0
     viols = []
     nv = len(w.v)
@@ -146,23 +171,23 @@ def per_state(spec, seq, w):
                         nontriv += 2 * joined
                         bad, got = judge_set(w, a, b, ds, un, fn)
                         if bad:
-                            viols.append((f"find_links|ds={ds}|unknown={un}|filter={fn}|{'a=b' if a == b else 'a!=b'}|{bad}",
-                                          {"seq": sq, "space": _plain(spec), "case": ["set", a, b, ds, un, fn]}))
+                            viols.append((f"find_links|ds={ds}|unknown={un}|filter={fn}|{'a=b' if a == b else 'a!=b'}|{bad}{'|caching-on' if caching else ''}",
+                                          {"seq": sq, "space": _plain(spec), "case": ["set", a, b, ds, un, fn], "caching": caching}))
                             continue
                         bad = judge_count(w, a, b, ds, un, fn, got)
                         if bad:
-                            viols.append((f"count|ds={ds}|unknown={un}|filter={fn}|{'a=b' if a == b else 'a!=b'}|{bad}",
-                                          {"seq": sq, "space": _plain(spec), "case": ["count", a, b, ds, un, fn]}))
+                            viols.append((f"count|ds={ds}|unknown={un}|filter={fn}|{'a=b' if a == b else 'a!=b'}|{bad}{'|caching-on' if caching else ''}",
+                                          {"seq": sq, "space": _plain(spec), "case": ["count", a, b, ds, un, fn], "caching": caching}))
     if not viols and w.l:
         base = answers(w)
         for a in range(nv):
             for b in range(a, nv):
                 evals += len(base)
                 nontriv += 1
-                for kind, key in judge_unlink(spec, seq, a, b, base)[:3]:
-                    viols.append((f"unlink|{'a=b' if a == b else 'a!=b'}|{kind}",
-                                  {"seq": sq, "space": _plain(spec), "case": ["unlink", a, b]}))
-    return evals, nontriv, viols, None
+                for kind, key in judge_unlink(spec, seq, a, b, base, caching)[:3]:
+                    viols.append((f"unlink|{'a=b' if a == b else 'a!=b'}|{kind}{'|caching-on' if caching else ''}",
+                                  {"seq": sq, "space": _plain(spec), "case": ["unlink", a, b], "caching": caching}))
+    return evals, nontriv, viols
 
 
 def _plain(spec):
@@ -173,12 +198,22 @@ def replay(rec, verbose=False):
     spec = rec["space"]
     seq = [tuple(o) for o in rec["seq"]]
     w, ok = engine_g.build(spec, seq)
-    Vertex.NEIGHBOR_CACHING = False
+    caching = bool(rec.get("caching"))
+    Vertex.NEIGHBOR_CACHING = caching
+    if caching:
+        warm_all(w)
     case = rec["case"]
     if verbose:
         from ..structure import observe
-        print("  graph ops:", seq)
+        print("  graph ops:", seq, " neighbour caching:", caching)
         print("  structure:", observe(w)["lv"], observe(w)["cl"], "well-formed:", ok)
+    try:
+        return _replay_case(rec, spec, seq, w, case, caching, verbose)
+    finally:
+        Vertex.NEIGHBOR_CACHING = False
+
+
+def _replay_case(rec, spec, seq, w, case, caching, verbose):
     if case[0] in ("set", "count"):
         _, a, b, ds, un, fn = case
         bad, got = judge_set(w, a, b, ds, un, fn)
@@ -193,7 +228,7 @@ def replay(rec, verbose=False):
         return bad is not None
     _, a, b = case
     base = answers(w)
-    bad = judge_unlink(spec, seq, a, b, base)
+    bad = judge_unlink(spec, seq, a, b, base, caching)
     if verbose:
         print(f"  after unlink(v{a}, v{b}):", bad[:5])
     return bool(bad)
